@@ -900,6 +900,7 @@ func extract() error {
 			return err != nil && strings.Contains(err.Error(), "Lit() at")
 		}},
 		{"gpNoUnwrap", func() bool { return !mk("$.t.a").PathInMask(d, "$.t.a") }},
+		{"gpTypAll", func() bool { return !mk("$.*").PathInMask(d, "$.l[1]") }},
 		{"blackStar", func() bool {
 			m, err := fieldmask.Options{BlackListMode: true}.NewFieldMask(d, "$.l[*]")
 			if err != nil {
